@@ -71,7 +71,7 @@ def run_group(run, scr, entries, jobs=12, package="cooklang"):
         run.log("counterexample for %s: %s - extracting concrete values" % (short, [c["desc"] for c in r["failed_checks"]]))
         plog = os.path.join(run.logdir, "playback-%s.log" % short)
         tests = kani.playback_print(scr.repo, n, tdir, plog, timeout_s=int(max(600, 3 * (r.get("time_s") or 200))), package=package)
-        tests = [t for t in tests if t["concrete_vals"] is not None]
+        tests = [t for t in tests if t["concrete_vals"] is not None and not t["check"].startswith("cover condition")]
         confirmed = []
         if tests:
             pbfile = os.path.join(scr.dir, "playback", module_of(n).replace("::", "__") + ".rs")
